@@ -76,6 +76,9 @@ class TracedRace:
                 self.rc_sent.append(msg)
 
         self.w.sim.send_hook = hook
+        self.w.block_hook = self._on_block
+        self.blocked = None  # name of a worker whose actor thread is blocked for good
+        self.blocking_waits = 0
         # preemption point inside Worker.receiveMsg_WakeupMessage: after send_samples() the executor thread may run before the
         # handler looks at the executor's future (model: WWakeupA / executor steps / WWakeupB)
         self._in_wakeup = None
@@ -369,6 +372,16 @@ class TracedRace:
             self.dropped.append(sid)
 
     def do(self, dec, service_time=None, preempt=None):
+        try:
+            return self._do(dec, service_time, preempt)
+        except racesim.HandlerBlocked:
+            # the actor thread of a worker is blocked for good (it waits for an executor that never ends): the race hangs
+            self._in_wakeup = None
+            self.hang = True
+            self.events.append({"ev": "Skip", "arg": 0, "st": self.project()})
+            return "Skip", 0
+
+    def _do(self, dec, service_time=None, preempt=None):
         w = self.w
         ev, arg = self.decision_event(dec)
         n_cct_before = self._count_cct()
@@ -454,6 +467,26 @@ class TracedRace:
         self.events.append({"ev": ev, "arg": arg, "st": st})
         return ev, arg
 
+    def _on_block(self, run):
+        """A handler of worker `run.worker_name` waits for its running executor: the executor thread goes on (requests of this
+        worker's clients complete) until it is done. The model has no such step: the enclosing event is an L2 rejection."""
+        name = run.worker_name
+        self.blocking_waits += 1
+        for _ in range(120):
+            if run.future.done():
+                return
+            en = [d for d in self.w.enabled() if (d[0] == "req" and self.w.worker_of_client(d[1]) == name) or (d[0] == "exec_start" and d[1] == name)]
+            if not en:
+                break
+            dec = self.w.rnd.choice(en)
+            if dec[0] == "req":
+                self._complete_request(dec[1])
+            else:
+                self.w.step(dec)
+        if not run.future.done():
+            self.blocked = name
+            raise racesim.HandlerBlocked(name)
+
     def _mid_hook(self, name):
         """Called inside the worker's wake-up handler right after send_samples(): log WWakeupA, then let the executor run."""
         wi = int(name[6:])
@@ -537,7 +570,7 @@ class TracedRace:
         pending = [tuple(x) for x in script]
         while pending:
             want = pending.pop(0)
-            if self.done() or len(self.events) >= max_events:
+            if self.done() or self.hang or len(self.events) >= max_events:
                 break
             if want[0] == "WWakeupB":
                 continue  # consumed together with its WWakeupA
@@ -569,7 +602,7 @@ class TracedRace:
         n_random = 0
         unchanged = 0
         sig = self.control_signature()
-        while not self.done() and len(self.events) < max_events and n_random < max_events // 2 and unchanged < 25:
+        while not self.done() and not self.hang and len(self.events) < max_events and n_random < max_events // 2 and unchanged < 25:
             en = self.enabled()
             if not en:
                 break
@@ -585,7 +618,7 @@ class TracedRace:
         # deterministic round-robin sweeps; a hang is diagnosed when full sweeps no longer change the control state
         same = 0
         sig = self.control_signature()
-        while not self.done():
+        while not self.done() and not self.hang:
             en = self.w.enabled()
             if not en:
                 break
@@ -594,7 +627,7 @@ class TracedRace:
                 # any number of sample shipments), and takes every other enabled decision once
                 n = len(self.w.sim.chan.get((dec[1], dec[2]), ())) if dec[0] == "deliver" else 1
                 for _ in range(max(n, 1)):
-                    if dec in self.w.enabled() and not self.done():
+                    if dec in self.w.enabled() and not self.done() and not self.hang:
                         self.do(dec)
             nsig = self.control_signature()
             same = same + 1 if nsig == sig else 0
